@@ -10,11 +10,19 @@
 // NoFragmentCyclesRule, NoUnusedFragmentsRule); the model side is drv_c02overlap (Lean): M = the algorithms as coded,
 // S = the declarative rules. Compared: per rule the full error list (locations, order) real vs M, accept/reject
 // real vs S, and for the overlap rule the three `verifCount` step counters real vs M (equality).
+//
+// Second family, cyclicMixedExclusive (harness/cycfam): tables of 2-3 fragments on A / B / I spread side by side below
+// `i`, bodies = subsets of { x: c { ...Fj }, ...Fj, n }: the fragment pair memo is asked about one pair with and
+// without mutual exclusivity in the middle of a cycle. Same comparisons. The overlap rule runs under a watchdog (a
+// recursion without end would otherwise take the harness down with a fatal stack overflow), and the case in flight is
+// kept in <replaydir>/inflight-c02overlap.json.
 package main
 
 import (
 	"encoding/json"
 	"fmt"
+	"os"
+	"path/filepath"
 	"strings"
 	"time"
 
@@ -23,6 +31,7 @@ import (
 	"github.com/graphql-go/graphql/language/parser"
 
 	"verif/harness/astjson"
+	"verif/harness/cycfam"
 	"verif/harness/gq"
 	"verif/harness/hx"
 )
@@ -379,9 +388,27 @@ func runRule(schema *graphql.Schema, doc *ast.Document, rule graphql.ValidationR
 	return out
 }
 
+// runRuleWatched = runRule in a goroutine; hung = it did not return within limit (the goroutine cannot be stopped: the
+// caller reports and ends the process).
+func runRuleWatched(schema *graphql.Schema, doc *ast.Document, rule graphql.ValidationRuleFn, counters bool, limit time.Duration) (out realOut, hung bool) {
+	ch := make(chan realOut, 1)
+	go func() { ch <- runRule(schema, doc, rule, counters) }()
+	select {
+	case out = <-ch:
+		return out, false
+	case <-time.After(limit):
+		return realOut{}, true
+	}
+}
+
+// family cyclicMixedExclusive on this schema: A and B are the two object types, I the interface; c: I and l: [I]
+// exist on all three
+var cyclicVocab = cycfam.Vocab{Root: []string{"i"}, Conds: []string{"A", "B", "I"}, NObj: 2, Sub: []string{"c", "l"}, Leaf: "n"}
+
 type caseT struct {
-	Src  string `json:"src"`
-	Topo string `json:"topo"`
+	Src  string   `json:"src"`
+	Topo string   `json:"topo"`
+	Tags []string `json:"tags,omitempty"`
 }
 
 func main() {
@@ -393,7 +420,7 @@ func main() {
 		return
 	}
 	defer drv.Close()
-	run.Res.Rule = "every directed graph (self loops allowed) on N<=3 (quick) / N<=4 (thorough) fragments, each with several random decorations (type condition I/A/B, 0-2 pool selections per fragment, spread placement top-level / inside sub-selection / inside inline fragment, operation spreading F0 and a random subset); operations declare and the pool uses variables $v $w $u; rules OverlappingFieldsCanBeMerged, NoFragmentCycles, NoUnusedFragments, NoUndefinedVariables, NoUnusedVariables, VariablesInAllowedPosition each run alone; non-trivial = the graph has at least one edge or some rule rejects; distinct by document text"
+	run.Res.Rule = "every directed graph (self loops allowed) on N<=3 (quick) / N<=4 (thorough) fragments, each with several random decorations (type condition I/A/B, 0-2 pool selections per fragment, spread placement top-level / inside sub-selection / inside inline fragment, operation spreading F0 and a random subset); operations declare and the pool uses variables $v $w $u; rules OverlappingFieldsCanBeMerged, NoFragmentCycles, NoUnusedFragments, NoUndefinedVariables, NoUnusedVariables, VariablesInAllowedPosition each run alone; plus family cyclicMixedExclusive (harness/cycfam): tables of 2-3 fragments on A / B / I spread side by side below `i`, bodies = subsets of { x: c { ...Fj }, ...Fj, n } (two-fragment tables: 500 of 8649 quick / all thorough; three-fragment tables: seeded random); non-trivial = the graph has at least one edge or some rule rejects or the document is of the second family; distinct by document text"
 
 	desc := schemaDesc()
 	built, err := gq.Build(desc, gq.Hooks{
@@ -411,13 +438,29 @@ func main() {
 
 	maxFC, maxFF, maxBF := uint64(0), uint64(0), uint64(0)
 
+	inflight := ""
+	if run.ReplayDir != "" && run.ReplayIn == "" {
+		os.MkdirAll(run.ReplayDir, 0o755)
+		inflight = filepath.Join(run.ReplayDir, "inflight-c02overlap.json")
+	}
 	one := func(c caseT) {
 		doc, err := parser.Parse(parser.ParseParams{Source: c.Src})
 		if err != nil {
 			run.CheckError("generator produced unparsable text: " + c.Src)
 			return
 		}
-		ov := runRule(schema, doc, graphql.OverlappingFieldsCanBeMergedRule, true)
+		if inflight != "" { // a fatal error in the library (stack overflow) kills this process: keep the input
+			b, _ := json.Marshal(map[string]interface{}{"property": "C02", "note": "case in flight when the harness process died", "replay": map[string]interface{}{"case": c}})
+			os.WriteFile(inflight, b, 0o644)
+		}
+		ov, hung := runRuleWatched(schema, doc, graphql.OverlappingFieldsCanBeMergedRule, true, 10*time.Second)
+		if hung {
+			run.Case(c.Src, true, nil)
+			run.Violation(fmt.Sprintf("OverlappingFieldsCanBeMerged did not return within 10 s on a document of %d bytes (overlap_no_fuel_exhaustion / memo_body_at_most_once say the memoised comparison terminates): %s", len(c.Src), c.Src),
+				map[string]interface{}{"case": c, "real_overlap": "no answer within 10 s"}, false)
+			run.Finish()
+			os.Exit(0) // the comparison is still recursing in its goroutine and cannot be stopped
+		}
 		cy := runRule(schema, doc, graphql.NoFragmentCyclesRule, false)
 		un := runRule(schema, doc, graphql.NoUnusedFragmentsRule, false)
 		uv := runRule(schema, doc, graphql.NoUndefinedVariablesRule, false)
@@ -438,9 +481,15 @@ func main() {
 			return o
 		}
 		rejected := len(ov.Errs) > 0 || len(cy.Errs) > 0 || len(un.Errs) > 0
-		run.Case(c.Src, strings.Contains(c.Topo, ">") || rejected, map[string]interface{}{"src": c.Src, "topo": c.Topo,
+		run.Case(c.Src, strings.Contains(c.Topo, ">") || rejected || strings.HasPrefix(c.Topo, cycfam.Tag), map[string]interface{}{"src": c.Src, "topo": c.Topo,
 			"overlap_errors": len(ov.Errs), "cycle_errors": len(cy.Errs), "unused_errors": len(un.Errs), "counters": ov.Counters})
 		run.Tag(fmt.Sprintf("overlap:%v", verdict(len(ov.Errs))))
+		for _, t := range c.Tags {
+			run.Tag(t)
+		}
+		if strings.HasPrefix(c.Topo, cycfam.Tag) && len(ov.Errs) > 0 {
+			run.Tag(cycfam.Tag + ":overlap-conflict-reported")
+		}
 		run.Tag(fmt.Sprintf("cycles:%v", verdict(len(cy.Errs))))
 		run.Tag(fmt.Sprintf("unused:%v", verdict(len(un.Errs))))
 		if len(ov.Errs) > 0 && len(cy.Errs) > 0 {
@@ -572,6 +621,9 @@ func main() {
 		acyclicBoost = 15
 	}
 	idx := 0
+	if os.Getenv("VERIF_C02OVERLAP_ONLY") == "cyclic" { // targeted runs of the second family alone
+		maxN = 0
+	}
 	for n := 1; n <= maxN; n++ {
 		for bits := uint64(0); bits < 1<<uint(n*n); bits++ {
 			t := topoFromBits(n, bits)
@@ -593,6 +645,32 @@ func main() {
 			}
 		}
 	}
+	// ---- family cyclicMixedExclusive: two-fragment tables (quick: 500 of the 8649, a stride through the index space;
+	// thorough: all), then seeded random tables with three (one time in four: two) fragments and the richer alphabet
+	n2 := cycfam.Count2(cyclicVocab)
+	take2, takeRnd := run.N(500, n2), run.N(250, 20000)
+	for k := 0; k < take2 && !run.TooManyViolations(); k++ {
+		i := k
+		if take2 < n2 {
+			i = int((uint64(k)*7919 + run.Seed*131) % uint64(n2)) // 7919 is coprime to 8649: no index twice
+		}
+		d := cycfam.Exhaustive2(cyclicVocab, i)
+		one(caseT{Src: d.Src, Topo: fmt.Sprintf("%s:N=2 #%d", cycfam.Tag, i), Tags: d.Tags})
+	}
+	for k := 0; k < takeRnd && !run.TooManyViolations(); k++ {
+		r := hx.Fork(run.Seed^0xC1C11C, k)
+		nf := 3
+		if r.Chance(1, 4) {
+			nf = 2
+		}
+		d := cycfam.Random(cyclicVocab, r, nf)
+		one(caseT{Src: d.Src, Topo: fmt.Sprintf("%s:random N=%d", cycfam.Tag, nf), Tags: d.Tags})
+	}
+	if inflight != "" {
+		os.Remove(inflight)
+	}
+	run.Res.Extra["cyclicMixedExclusive_two_fragment_tables"] = fmt.Sprintf("%d of %d", take2, n2)
+	run.Res.Extra["cyclicMixedExclusive_random_tables"] = takeRnd
 	run.Res.Exhaustive = false // topologies are exhaustive, decorations are sampled
 	run.Res.Extra["topologies_enumerated_exhaustively_up_to_N"] = maxN
 	run.Res.Extra["max_counters_findConflict_fieldsAndFragment_betweenFragments"] = []uint64{maxFC, maxFF, maxBF}
